@@ -101,6 +101,19 @@ def _ld():
 LB, LV = _ld()
 LDisc = Annotated[LB, Discriminator(field="kind", include_subtypes=True)]
 ''', ["LDisc", "List[LDisc]"], None),
+    "generic_discriminated": ('''
+from mashumaro.types import Discriminator
+_GDT = TypeVar("_GDT")
+@dataclass
+class GB(Generic[_GDT], DataClassDictMixin):
+    kind: str = "base"
+    v: Optional[_GDT] = None
+@dataclass
+class GI(GB[int]):
+    kind: str = "int"
+GDisc = Annotated[GB[int], Discriminator(field="kind", include_subtypes=True, include_supertypes=True)]
+GDiscSub = Annotated[GB[int], Discriminator(field="kind", include_subtypes=True)]
+''', ["GDisc", "GDiscSub", "List[GDisc]"], None),
     "str_subclass": ('''
 class MyStr(str):
     pass
@@ -171,6 +184,11 @@ def awkward_task(payload):
 
 
 SAMPLES = {
+    "generic_discriminated": {
+        "GDisc": ("{'kind': 'int', 'v': '1'}", "type(v) is GI and v.v == 1 and type(C.from_dict({'x': {'kind': 'base'}}).x) is GB"),
+        "GDiscSub": ("{'kind': 'int', 'v': '1'}", "type(v) is GI and v.v == 1"),
+        "List[GDisc]": ("[{'kind': 'int'}, {'kind': 'base'}]", "[type(e) for e in v] == [GI, GB]"),
+    },
     "local_discriminated": {
         "LDisc": ("{'kind': 'v', 'a': 2}", "type(v) is LV and v.a == 2"),
         "List[LDisc]": ("[{'kind': 'v', 'a': 2}]", "type(v[0]) is LV"),
